@@ -319,16 +319,26 @@ func init() {
 	registerSM("C07", "c07setup", func(b string) (*sm.Session, error) { return sm.NewSession("C07", "c07setup", b) })
 }
 
+func likeLeaf(rt *rapid.T, e *gen.CritEnv) *cs.Crit {
+	for i := 0; i < 20; i++ {
+		if c := e.Leaf(rt); c.Op == "like" {
+			return c
+		}
+	}
+	return &cs.Crit{Op: "like", Field: "w", Pattern: "a.*"}
+}
+
 // genProgram07 draws a concurrent program. kinds restricts the operation kinds of the
 // clients (nil = the C07 mix).
 func genProgram07(rt *rapid.T, kinds []string) (*c07Program, func() *cs.Crit, int) {
 	if kinds == nil {
 		kinds = []string{"insert", "insert", "updatebyid", "update", "updatefunc", "delete", "deletebyid", "createindex", "dropindex", "find", "find", "count", "findbyid", "catalog"}
-		if rapid.IntRange(0, 9).Draw(rt, "with-big-batch") == 0 {
-			kinds = append(kinds, "biginsert")
-		}
 	}
-	backend := rapid.SampledFrom([]string{run.Bbolt, run.BadgerMem}).Draw(rt, "backend")
+	backend := rapid.SampledFrom(raceBackends).Draw(rt, "backend")
+	if backend == run.BadgerMem && rapid.IntRange(0, 6).Draw(rt, "with-big-batch") == 0 {
+		// only where the batch exceeds the transaction budget and must be refused as a whole
+		kinds = append(append([]string{}, kinds...), "biginsert")
+	}
 	vcfg := gen.ValCfg{MaxDepth: 0, NoTime: true}
 	dcfg := gen.DocCfg{Val: vcfg, PAbsent: 4, Fields: []string{"x", "y", "u"}}
 	p := &c07Program{Backend: backend}
@@ -344,6 +354,7 @@ func genProgram07(rt *rapid.T, kinds []string) (*c07Program, func() *cs.Crit, in
 		for i := range docs {
 			d := gen.Fields(dcfg, int64(i)).Draw(rt, "seed-doc")
 			d["_id"] = gen.Id(i)
+			d["w"] = rapid.SampledFrom([]string{"a", "ab", "abc", "b", "ca"}).Draw(rt, "w") // always a string: what Like leaves look at
 			docs[i] = d
 		}
 		p.Setup = append(p.Setup, cs.Op{Kind: "insert", Coll: c, Docs: docs})
@@ -351,10 +362,15 @@ func genProgram07(rt *rapid.T, kinds []string) (*c07Program, func() *cs.Crit, in
 			p.Setup = append(p.Setup, cs.Op{Kind: "createindex", Coll: c, Field: rapid.SampledFrom([]string{"x", "y", "u"}).Draw(rt, "seed-ixf")})
 		}
 	}
-	env := gen.CritEnv{Val: vcfg, Fields: []string{"x", "y", "u"}, MaxDepth: 2, NoFunc: true, NoLike: true, NoFieldRef: true, OnlyCmp: true}
+	env := gen.CritEnv{Val: vcfg, Fields: []string{"x", "y", "u"}, MaxDepth: 2, NoFunc: true, NoFieldRef: true, OnlyCmp: true}
+	likeEnv := gen.CritEnv{Val: vcfg, Fields: []string{"w"}, NoFunc: true, NoFieldRef: true}
 	crit := func() *cs.Crit {
 		if rapid.IntRange(0, 3).Draw(rt, "nocrit") == 0 {
 			return nil
+		}
+		if rapid.IntRange(0, 3).Draw(rt, "likecrit") == 0 {
+			// regular-expression leaves evaluated by several goroutines at once
+			return &cs.Crit{Op: "or", Sub: []*cs.Crit{likeLeaf(rt, &likeEnv), env.Crit(rt, 1)}}
 		}
 		return env.Crit(rt, rapid.IntRange(1, 2).Draw(rt, "critdepth"))
 	}
@@ -389,6 +405,7 @@ func genProgram07(rt *rapid.T, kinds []string) (*c07Program, func() *cs.Crit, in
 				for i := range docs {
 					d := gen.Fields(dcfg, int64(nextId)).Draw(rt, "doc")
 					d["_id"] = gen.Id(nextId)
+					d["w"] = rapid.SampledFrom([]string{"a", "ab", "abc", "b", "ca"}).Draw(rt, "w")
 					if rapid.IntRange(0, 7).Draw(rt, "dup-id") == 0 {
 						d["_id"] = gen.Id(rapid.IntRange(0, nseed-1).Draw(rt, "dupk"))
 					}
